@@ -269,3 +269,40 @@ def looks_like_addressed_text(content: bytes) -> bool:
         except ValueError:
             pass
     return "@" in text
+
+
+# --------------------------------------------------------------------------------------------------
+# Independent writers (used to make input files for the loader; plain 16-byte records)
+# --------------------------------------------------------------------------------------------------
+def write_ihex(segments: list[tuple[int, bytes]]) -> str:
+    def rec(typ: int, addr: int, data: bytes) -> str:
+        raw = bytes([len(data), addr >> 8 & 0xFF, addr & 0xFF, typ]) + data
+        return ":" + (raw + bytes([-sum(raw) & 0xFF])).hex().upper()
+
+    out = []
+    upper = 0
+    for start, data in segments:
+        pos = 0
+        while pos < len(data):
+            a = start + pos
+            if a >> 16 != upper:
+                upper = a >> 16
+                out.append(rec(4, 0, upper.to_bytes(2, "big")))
+            n = min(16, len(data) - pos, 0x10000 - (a & 0xFFFF))  # a record stays inside its 64 KiB page
+            out.append(rec(0, a & 0xFFFF, data[pos : pos + n]))
+            pos += n
+    out.append(rec(1, 0, b""))
+    return "\n".join(out) + "\n"
+
+
+def write_srec(segments: list[tuple[int, bytes]]) -> str:
+    def rec(typ: str, addr: bytes, data: bytes) -> str:
+        raw = bytes([len(addr) + len(data) + 1]) + addr + data
+        return "S" + typ + (raw + bytes([~sum(raw) & 0xFF])).hex().upper()
+
+    out = [rec("0", b"\x00\x00", b"HDR")]
+    for start, data in segments:
+        for pos in range(0, len(data), 16):
+            out.append(rec("3", (start + pos).to_bytes(4, "big"), data[pos : pos + 16]))
+    out.append(rec("7", bytes(4), b""))
+    return "\n".join(out) + "\n"
